@@ -71,6 +71,13 @@ def maskIdx : List Bool → List Nat
 def mask {α} (m : List Bool) (cols : Cols α) : Option (Cols α) :=
   if m.length = nrows cols then take (maskIdx m) cols else none
 
+/-- `table[table.field == value]` / `!=` / `np.isin(table.field, values)`: the column's element-wise
+comparison (`StringArray.__array_ufunc__`, NumPy) gives the mask, the mask indexes every column -/
+def predMask {α} (p : α → Bool) (j : Nat) (cols : Cols α) : Option (Cols α) :=
+  match cols[j]? with
+  | none => none
+  | some c => mask (c.map p) cols
+
 /-- `np.concatenate([a, b])`: `np.concatenate` per column over `zip(*tuples)` -/
 def concat {α} (a b : Cols α) : Cols α := List.zipWith (· ++ ·) a b
 
@@ -111,6 +118,7 @@ inductive Op (α : Type) where
   | concat (other : Cols α)          -- `np.concatenate([t, other])`
   | concatL (other : Cols α)         -- `np.concatenate([other, t])`
   | sortBy (j : Nat) (key : α → Int)   -- what `np.argsort` orders the field by (value / text rank)
+  | predMask (j : Nat) (p : α → Bool)  -- `t[t.field == v]`, `t[t.field != v]`, `t[np.isin(t.field, vs)]`
   | replace (j : Nat) (c : List α)
   | addFields (new : Cols α)
 
@@ -120,6 +128,7 @@ def step {α} (cols : Cols α) : Op α → Option (Cols α)
   | .concat o => if wfB o && o.length == cols.length then some (concat cols o) else none
   | .concatL o => if wfB o && o.length == cols.length then some (concat o cols) else none
   | .sortBy j key => sortBy key j cols
+  | .predMask j p => predMask p j cols
   | .replace j c => replaceCol j c cols
   | .addFields new => addFields new cols
 
@@ -161,6 +170,21 @@ def knownUnconverted : List (String × String) := [
 
 def constructCellOK (row : String × String × String) : Bool :=
   row.2.2 == "raise" || (allowedClasses row.1).contains row.2.2 || knownUnconverted.contains (row.1, row.2.1)
+
+/-- `add_fields` without a type map: the classes a column inferred from each argument form may have
+(refusing is acceptable only where the values are no "basic type") -/
+def inferAllowed : String → List String
+  | "list_int" | "nd_int" => ["ndarray:i"]
+  | "list_float" | "nd_float" => ["ndarray:f"]
+  | "list_bool" | "nd_bool" => ["ndarray:b"]
+  | "list_mixed" => ["ndarray:f", "raise"]
+  | "list_str" | "nd_str" | "encoded_ragged" => ["encragged:base", "stringarray"]
+  | "string_array" => ["encragged:base", "stringarray", "raise"]
+  | "dna_ragged" | "list_dna_rows" => ["encragged:alpha"]
+  | "list_list_int" => ["ragged:i", "raise"]
+  | _ => []
+
+def inferCellOK (row : String × String) : Bool := (inferAllowed row.1).contains row.2
 
 /-- first cell that neither converts nor raises (handed to the search) -/
 def firstBadCell (t : List (String × String × String)) : Option (String × String × String) :=
